@@ -56,7 +56,12 @@ Inductive outcome :=
 (* ---------------- graph-derived maps ---------------- *)
 
 Definition is_gate (n : node) : bool := match n_kind n with KGate _ => true | _ => false end.
-Definition is_interrupt (n : node) : bool := match n_kind n with KInterrupt => true | _ => false end.
+Definition is_interrupt_node (n : node) : bool := match n_kind n with KInterrupt => true | _ => false end.
+(* is_interrupt: "may pause, runs alone in its superstep" (run_superstep_async) - an InterruptNode, or a nested-graph node whose
+   inner graph holds an interrupt at any depth (repository fix for finding F-s).  For a KGraph node the otherwise unused n_fn
+   carries that flag (2); Nested.graphnode_of computes it from the inner graph. *)
+Definition is_interrupt (n : node) : bool :=
+  match n_kind n with KInterrupt => true | KGraph => Pos.eqb (n_fn n) 2 | _ => false end.
 Definition gate_targets (n : node) : list name :=
   match n_kind n with
   | KGate gi => flat_map (fun t => match t with TNode x => [x] | TEnd => [] end) (gt_targets gi)
